@@ -1,5 +1,51 @@
-(* C09 - statements only. *)
-Require Import List ZArith. Require Import IW.KV.Node IW.KV.Node_proofs.
-Theorem C09_insert_length : forall K V (n : recs K V) i e, length (insert_at K V n i e) = S (length n).
-Proof. exact insert_at_length. Qed.
-Print Assumptions C09_insert_length.
+(* C09 - iterating while the store changes.  Statements only.
+   The model (KV/Cursor.v) carries every cursor fix-up loop of iwkv.c (after the repairs recorded in
+   known_findings.json) and is compared with the implementation's cursor bookkeeping (cnpos, skip_next, copy) after
+   every mutation by the correspondence check.  PROVED here are the list-level facts that make those fix-ups right:
+   under the index adjustment each loop applies, a cursor keeps designating the same record.  NOT proved
+   (stated here as the open goal): `scan_stable` - for every interleaving of cursor moves with puts/deletes, the rest
+   of the scan is the old rest minus deleted keys plus inserted keys ahead; and `fresh_inv` - no cursor copy is stale. *)
+Require Import List ZArith Lia. Import ListNotations.
+Require Import IW.KV.Node IW.KV.Cursor IW.KV.Cursor_proofs.
+
+(* _sblk_addkv/_sblk_addkv2: `if (cnpos >= idx) cnpos++` keeps the cursor on its record, for every node content,
+   insertion slot and cursor slot *)
+Theorem C09_insert_keeps_record_partial :
+  forall (K V : Type) (r : recs K V) (idx p : nat) (e : K * V), p < length r ->
+    nth_error (insert_at K V r idx e) (if Nat.leb idx p then S p else p) = nth_error r p.
+Proof.
+  intros K V r idx p e Hp. destruct (insert_keeps_record K V 1 (le_n 1) r idx p e) as [H|H]; [exact H|lia].
+Qed.
+Print Assumptions C09_insert_keeps_record_partial.
+
+(* _sblk_rmkv: `else if (cnpos > idx) cnpos--` keeps the cursor on its record *)
+Theorem C09_remove_keeps_record_partial :
+  forall (K V : Type) (r : recs K V) (idx p : nat), p <> idx ->
+    nth_error (remove_at K V r idx) (if Nat.ltb idx p then p - 1 else p) = nth_error r p.
+Proof. intros K V. exact (remove_keeps_record K V 1 (le_n 1)). Qed.
+Print Assumptions C09_remove_keeps_record_partial.
+
+(* _sblk_rmkv, cursor on the removed slot: the slot now holds the successor (skip_next = 1: the next NEXT must not move) *)
+Theorem C09_remove_current_successor_partial :
+  forall (K V : Type) (r : recs K V) (idx : nat),
+    nth_error (remove_at K V r idx) idx = nth_error r (S idx).
+Proof. exact remove_current_successor. Qed.
+Print Assumptions C09_remove_current_successor_partial.
+
+(* _lx_split_addkv: a cursor at or behind the pivot finds its record in the new node at cnpos - pivot, a cursor before
+   the pivot finds it in the kept part at the same slot *)
+Theorem C09_split_keeps_record_partial :
+  forall (K V : Type) (PIVOT : nat) (r : recs K V) (p : nat),
+    (PIVOT <= p -> nth_error (skipn PIVOT r) (p - PIVOT) = nth_error r p) /\
+    (p < PIVOT -> nth_error (firstn PIVOT r) p = nth_error r p).
+Proof.
+  intros K V PIVOT r p. split.
+  - exact (split_keeps_record_moved K V 1 PIVOT (le_n 1) r p).
+  - exact (split_keeps_record_kept K V 1 PIVOT (le_n 1) r p).
+Qed.
+Print Assumptions C09_split_keeps_record_partial.
+
+(* Non-vacuity: a cursor on slot 3 of a node; a record inserted at slot 1 moves it to slot 4, same record. *)
+Example C09_insert_example :
+  nth_error (insert_at nat nat [(9,0);(8,0);(7,0);(6,0);(5,0)] 1 (88, 1)) 4 = nth_error [(9,0);(8,0);(7,0);(6,0);(5,0)] 3.
+Proof. reflexivity. Qed.
